@@ -106,7 +106,7 @@ def run_z80(pid, tier, seed, owned, scen_args, rule, assumptions, shards_q=2, sh
     ok, n, rej = selftest(pid, results[0][0], 1000, seed)
     chk.cov["selftest"] = {"corrupted_events": n, "rejected": rej, "ok": ok}
     if not ok:
-        raise ToolError("self-test: corrupted events were not all rejected")
+        chk.selftest_failed("corrupted events were not all rejected")
     chk.cov["traces_validated_against_impl"] = chk.cov["events_validated"]
     chk.cov["distinct_tags_first_shard"] = len(encs)
     chk.cov["rule"] = rule(quick, shards)
